@@ -1,9 +1,136 @@
-//! stub
-use super::Ctx;
-use crate::engine::evidence::{Case, Report, Verdict};
-pub fn run(_ctx: &Ctx, _rep: &mut Report) {
-    crate::engine::monitor::machinery_fail("not implemented");
+//! C20 - multiples flags leave card fields intact, strip cleanly, and dominate order.
+//!
+//! Spaces: all 52 cards x all 8 mark combinations x all 6 orders of applying the three marks; every
+//! (card, marks) x (card', marks') pair for the ordering clause (173,056 ordered pairs).
+//! Oracle: layout formula + mark bits 29 (pair), 30 (trips), 31 (quads).
+use super::{confirm, sample_json, Ctx};
+use crate::engine::enumerate::permutations;
+use crate::engine::evidence::{Acc, Case, Report, Verdict};
+use crate::engine::monitor::guard;
+use crate::oracle::cards::{deck, show_word, word_to_card, PRIMES, RANK_CHARS, SUIT_GLYPHS, SUIT_LETTERS};
+use ckc_rs::PokerCard;
+use std::time::Instant;
+
+fn apply(w: u32, marks: u32, order: &[usize]) -> u32 {
+    let mut x = w;
+    for k in order {
+        if marks & (1 << k) != 0 {
+            x = match k {
+                0 => x.flag_as_pair(),
+                1 => x.flag_as_trips(),
+                _ => x.flag_as_quads(),
+            };
+        }
+    }
+    x
 }
-pub fn judge(_case: &Case) -> Verdict {
-    Verdict::NotJudged("not implemented".into())
+
+/// Case kinds: "marks" [card word, mark set 0..8, order number 0..6]; "order" [card, marks, card', marks'].
+pub fn judge(case: &Case) -> Verdict {
+    let w = case.w32s();
+    match case.kind.as_str() {
+        "marks" => {
+            if w.len() != 3 || w[1] >= 8 || w[2] >= 6 {
+                return Verdict::NotJudged("card, marks, order".into());
+            }
+            let c = match word_to_card(w[0]) {
+                Some(c) => c,
+                None => return Verdict::NotJudged("a real card".into()),
+            };
+            let ord = &permutations(3)[w[2] as usize];
+            let exp = w[0] | (w[1] << 29);
+            let r = guard(|| {
+                let x = apply(w[0], w[1], ord);
+                let again = apply(x, w[1], ord);
+                (x, again, x.strip_multiples_flags(), x.get_card_rank() as u8, x.get_card_suit() as u8, x.get_rank_prime(), x.get_rank_bit(), x.get_suit_bit(), x.get_rank_char(), x.get_suit_char(), x.get_suit_letter(), x.get_rank_flag(), x.get_suit_flag())
+            });
+            let (x, again, stripped, rk, st, prime, rbit, sbit, rc, sc, sl, rflag, sflag) = match r {
+                Err(p) => return Verdict::Violated { class: "panic:marks".into(), expected: format!("{:#x}", exp), observed: format!("panic: {}", p) },
+                Ok(v) => v,
+            };
+            if x != exp {
+                return Verdict::Violated { class: "marks:sets-other-than-top-three-bits".into(), expected: format!("{:#x} = {} with marks {:#05b}", exp, show_word(w[0]), w[1]), observed: format!("{:#x}", x) };
+            }
+            if again != x {
+                return Verdict::Violated { class: "marks:not-idempotent".into(), expected: format!("{:#x}", x), observed: format!("{:#x}", again) };
+            }
+            if stripped != w[0] {
+                return Verdict::Violated { class: "strip:does-not-return-the-card".into(), expected: format!("{:#x} ({}) from {:#x}", w[0], show_word(w[0]), x), observed: format!("{:#x}", stripped) };
+            }
+            let (r, s) = (c.rank() as u32, c.suit() as u32);
+            let fields_ok = rk as u32 == r + 2 && st as u32 == s + 1 && prime == PRIMES[r as usize] && rbit == 1 << r && sbit == 1 << s && rc == RANK_CHARS[r as usize] && sc == SUIT_GLYPHS[s as usize] && sl == SUIT_LETTERS[s as usize] && rflag == 1 << (16 + r) && sflag == 1 << (12 + s);
+            if !fields_ok {
+                return Verdict::Violated {
+                    class: "marks:accessor-changed".into(),
+                    expected: format!("rank, suit, prime, bits and characters of {} read unchanged on {:#x}", show_word(w[0]), x),
+                    observed: format!("rank {} suit {} prime {} rank_bit {:#x} suit_bit {:#x} chars {}{}{}", rk, st, prime, rbit, sbit, rc, sc, sl),
+                };
+            }
+            Verdict::Holds
+        }
+        "order" => {
+            if w.len() != 4 || w[1] >= 8 || w[3] >= 8 || word_to_card(w[0]).is_none() || word_to_card(w[2]).is_none() {
+                return Verdict::NotJudged("card, marks, card', marks'".into());
+            }
+            let top = |m: u32| if m == 0 { 0 } else { 32 - m.leading_zeros() }; // 0 none, 1 pair, 2 trips, 3 quads
+            if top(w[1]) <= top(w[3]) {
+                return Verdict::NotJudged("the statement only orders a higher mark above a lower one".into());
+            }
+            let ord = &permutations(3)[0];
+            match guard(|| (apply(w[0], w[1], ord), apply(w[2], w[3], ord))) {
+                Ok((x, y)) if x > y => Verdict::Holds,
+                Ok((x, y)) => Verdict::Violated { class: "order:higher-mark-not-greater".into(), expected: format!("{} marked {:#05b} above {} marked {:#05b}", show_word(w[0]), w[1], show_word(w[2]), w[3]), observed: format!("{:#x} <= {:#x}", x, y) },
+                Err(p) => Verdict::Violated { class: "panic:order".into(), expected: "two words".into(), observed: format!("panic: {}", p) },
+            }
+        }
+        _ => Verdict::NotJudged("unknown kind".into()),
+    }
+}
+
+pub fn run(_ctx: &Ctx, rep: &mut Report) {
+    let d = deck();
+    let t0 = Instant::now();
+    let mut acc = Acc::new(1);
+    for c in &d {
+        for m in 0..8u32 {
+            for o in 0..6u32 {
+                acc.cases += 1;
+                acc.calls += 14;
+                if m != 0 {
+                    acc.nontrivial += 1;
+                }
+                if let Some(v) = confirm(judge, Case::w32("marks", &[c.word(), m, o])) {
+                    acc.violate(v);
+                }
+            }
+        }
+    }
+    rep.add_space("52 cards x 8 mark sets x 6 application orders", &acc, t0, "value, idempotence, strip, ten accessors");
+    let t0 = Instant::now();
+    let mut acc = Acc::new(1);
+    for a in &d {
+        for m in 0..8u32 {
+            for b in &d {
+                for m2 in 0..8u32 {
+                    acc.cases += 1;
+                    acc.calls += 2;
+                    match judge(&Case::w32("order", &[a.word(), m, b.word(), m2])) {
+                        Verdict::NotJudged(_) => {}
+                        Verdict::Holds => acc.nontrivial += 1,
+                        Verdict::Violated { .. } => {
+                            if let Some(v) = confirm(judge, Case::w32("order", &[a.word(), m, b.word(), m2])) {
+                                acc.violate(v);
+                            }
+                        }
+                    }
+                }
+            }
+        }
+    }
+    rep.guard("173,056 ordered (card, marks) pairs", acc.cases == 173_056, format!("{}", acc.cases));
+    rep.add_space("ordering: every (card, marks) x (card', marks')", &acc, t0, "higher top mark => numerically greater; in particular marked > every unmarked card");
+    let a = d[51].word();
+    rep.sample(sample_json("marks", "2♣ flagged as pair", &format!("{:#x} > A♠ {:#x}: {}", a.flag_as_pair(), d[0].word(), a.flag_as_pair() > d[0].word())));
+    rep.rule = "distinct (card, mark set, application order) triples and ordered pairs of marked cards; non-trivial = at least one mark set / pairs whose top marks differ (the ones the statement orders)".into();
+    rep.bound = "none: whole domain".into();
 }
